@@ -49,6 +49,8 @@ def deme_ops(pops):
 
 
 def run(res, replay=None):
+    # structural tie of the cache machine of the state space (update_epoch, drop_S, drop_cache, S, _get_rate_matrix, states): translate the CURRENT source and re-check proofs/GenCacheEquiv.v
+    import translate_step; (res.proof is not None) and translate_step.run(res.proof, pid=res.pid, tie='cache')
     rng = random.Random(res.seed)
     res.rule = ('histories stream: random sequences (length 4-8, thorough up to 30) of public queries (moments, cdf, quantile, '
                 'accumulate, marginals, different end times, SFS) on ONE Coalescent over epoch-switching demographies (2-4 '
